@@ -457,6 +457,30 @@ def aoi(ctx):
                    f'direction changes')
     f = P.func('BaseCoating._compute_aoi')
     res.saw(f)
+    from ..match import find as _find
+    clips = [c_ for c_ in ast.walk(f.node) if isinstance(c_, ast.Call) and
+             unparse(c_.func) == 'np.clip']
+    for c_ in clips:
+        a_ = [unparse(x) for x in c_.args]
+        if len(a_) == 3 and a_[1] in ('-1', '-1.0') and a_[2] in ('1', '1.0'):
+            res.ok(f'np.clip({a_[0]}, -1, 1) guards arccos against rounding')
+        else:
+            res.fail(ctx.finding('AOI', f, c_,
+                                 f'np.clip({", ".join(a_)}) is not a clamp of '
+                                 f'the cosine to [-1, 1]',
+                                 construct='aoi clip arguments'))
+    sfc = P.func('SurfaceGroup.set_fresnel_coatings')
+    res.saw(sfc)
+    if _find(sfc, 'for $s in self.surfaces[1:-1]:\n'
+                  '    if $s.material_pre != $s.material_post:\n'
+                  '        $s.set_fresnel_coating()'):
+        res.ok('set_fresnel_coatings: every interior surface between '
+               'different media gets a Fresnel coating')
+    else:
+        res.fail(ctx.finding('AOI', sfc, sfc.node,
+                             'set_fresnel_coatings does not coat exactly the '
+                             'interior surfaces that separate different media',
+                             construct='set_fresnel_coatings'))
     sym = Sym()
     ev = fn_eval(P, f, sym=sym)
     ac = [a for a, (k, x) in sym.defs.items() if k == 'acos']
